@@ -142,6 +142,9 @@ def build(rng):
     return dict(interval=interval, lat=lat, script=script, pat=tuple(pat), horizon=now + 2.5, empties=empties, late_ev=late_ev)
 
 
+_RIGS = [0]
+
+
 class Run:
     def __init__(self, sc, seed):
         import someip.service as SV
@@ -159,6 +162,7 @@ class Run:
         self.raised = []
         self.counter = 0
         self.unknown_unsubs = 0
+        self.staged = False
 
     def setup(self):
         SV = self.SV
@@ -170,6 +174,14 @@ class Run:
 
         svc = Svc(instance_id=1)
         svc.transport = net.RecTransport(self.h.loop, ("10.0.17.1", 30509))
+        self.prot.announcer.start()
+        _RIGS[0] += 1
+        if _RIGS[0] % 2 == 0:
+            # the service was announced before it had its eventgroups, and withdrawn again (an application that brings its
+            # service up in stages): what is announced afterwards is the service as it is then
+            svc.start_announce(self.prot.announcer)
+            svc.stop_announce(self.prot.announcer)
+            self.staged = True
         for g, interval in self.sc["interval"].items():
             eg = SV.SimpleEventgroup(svc, id=g, interval=interval)
             for ev in GROUPS[g]:
@@ -178,7 +190,6 @@ class Run:
             svc.register_eventgroup(eg)
             self.groups[g] = eg
         self.svc = svc
-        self.prot.announcer.start()
         svc.start_announce(self.prot.announcer)
 
         # a second service of the same application, announced on the same discovery stack through the same helper, with the same
@@ -282,6 +293,8 @@ def judge(ctx, sc, seed, replay):
     sent, problems = run.execute()
     L = sc["lat"]
     ctx.count("scripts")
+    if run.staged:
+        ctx.count("services_announced_once_before_their_eventgroups_were_registered")
     ctx.count("unsubscribe_of_unsubscribed_endpoint", run.unknown_unsubs)
     if L:
         ctx.count("latency_scripts")
